@@ -2,15 +2,27 @@
 """Prepare a scratch worktree and a brief for a seeded-defect sub-agent: mkbrief.py C08"""
 import json, sys, subprocess, os
 pid = sys.argv[1]
+rnd = sys.argv[2] if len(sys.argv) > 2 else ''  # e.g. "r2": second round, different ideas
 for l in open('/verif/properties.jsonl'):
     p = json.loads(l)
     if p['id'] == pid:
         break
 text = '**%s — %s**\n\n%s\n\nQuantified over: %s' % (p['id'], p['title'], p['statement'], p['quantifier']['text'])
-wt = '/tmp/seed/wt-' + pid
+tag = pid + rnd
+wt = '/tmp/seed/wt-' + tag
 if not os.path.exists(wt):
     subprocess.check_call(['git', '-C', '/repo', 'worktree', 'add', '-q', '--detach', wt, 'HEAD'])
-os.makedirs('/tmp/seed/out/%s' % pid, exist_ok=True)
-t = open('/tmp/seed/brief_template.md').read().replace('__PROPERTY__', text).replace('__WT__', wt).replace('__ID__', pid)
-open('/tmp/seed/brief-%s.md' % pid, 'w').write(t)
+os.makedirs('/tmp/seed/out/%s' % tag, exist_ok=True)
+tpl = '/tmp/seed/brief_template.md' if os.path.exists('/tmp/seed/brief_template.md') else '/verif/tools/seed_brief_template.md'
+t = open(tpl).read().replace('__PROPERTY__', text).replace('__WT__', wt).replace('__ID__', tag)
+if rnd:
+    taken = []
+    for v in ('A', 'B'):
+        mp = '/verif/seeded/%s-%s/meta.json' % (pid, v)
+        if os.path.exists(mp):
+            m = json.load(open(mp))
+            taken.append('- %s (files: %s)' % (m.get('summary', '')[:300], ', '.join(m.get('files', []))))
+    t += '\n\n## Already taken\n\nTwo seeded defects for this property exist already; yours must use DIFFERENT ideas and preferably different functions/files:\n' + '\n'.join(taken)
+    t += '\n\nIn this round prefer defects of the kinds: two cooperating sites that each look fine alone; a multi-step sequence of operations; a type/width/exponent combination that is rarely used; an off-by-one at a chunk/limb/digit boundary.\n'
+open('/tmp/seed/brief-%s.md' % tag, 'w').write(t)
 print(t)
